@@ -57,13 +57,14 @@ func runC09(r *Run, p *Prog) {
 		if f.Parent() != nil || f.Signature.Recv() != nil || f.Object() == nil || !f.Object().Exported() {
 			continue
 		}
-		for _, b := range f.Blocks {
+		fv := p.Inlined(f, func(c *ssa.Function) bool { return a.isCursorMethod(c) }) // (a constructor helper is part of the entry point)
+		for _, b := range fv.Blocks {
 			for _, in := range b.Instrs {
 				al, ok := in.(*ssa.Alloc)
 				if !ok {
 					continue
 				}
-				if pt, ok := al.Type().(*types.Pointer); !ok || !types.Identical(pt.Elem(), a.cursorT) {
+				if pt, ok := al.Type().(*types.Pointer); !ok || !a.isCursorT(pt.Elem()) {
 					continue
 				}
 				fs := fieldStores(al)
